@@ -44,7 +44,7 @@ PROPS = {
               "conversions, used files); every value encodes its engine generation."),
         real_vs_stub=REAL,
         assumptions=COMMON_ASSUME + ["creation/destruction of an engine is ordered with its uses by the user (plan order per slot)"],
-        expected_probes=["probe_destroyed_by_other_thread_than_user", "fault_engine_recreate_same_address", "probe_engine_used_nested_inside_use_of_another"],
+        expected_probes=["probe_destroyed_by_other_thread_than_user", "fault_engine_recreate_same_address", "probe_engine_used_nested_inside_use_of_another", "probe_engine_built_from_extended_library"],
         **two(40, 420,
               {"asan": {"workers": 8}, "plain": {"workers": 4}, "tsan": {"workers": 4}},
               {"asan": {"workers": 8}, "plain": {"workers": 4}, "tsan": {"workers": 4}}),
